@@ -41,6 +41,11 @@ func (vc *VC) batchScript(perQueryMs int) string {
 				oi++
 				continue
 			}
+			if vc.prop != "" && !hasProp(o.Props, vc.prop) {
+				o.Status = "unclaimed"
+				oi++
+				continue
+			}
 			if o.Cover {
 				fmt.Fprintf(&b, "(set-option :timeout 1500)\n")
 			}
@@ -169,7 +174,7 @@ func (vc *VC) Solve(dir string, quickMs int, raceS int) {
 	var wg sync.WaitGroup
 	sem := make(chan struct{}, 4)
 	for i, o := range obls {
-		if o.Status == "unresolved" {
+		if o.Status == "unresolved" || o.Status == "unclaimed" {
 			continue
 		}
 		st := got[i]
@@ -187,6 +192,11 @@ func (vc *VC) Solve(dir string, quickMs int, raceS int) {
 			}
 		} else if st == want {
 			o.Status = "discharged"
+			continue
+		}
+		if vc.prop != "" && !hasProp(o.Props, vc.prop) {
+			// not claimed under the property being checked: keep the batch verdict, do not spend solver time
+			o.Status = "unclaimed:" + st
 			continue
 		}
 		// race the solvers on the standalone query
